@@ -2,11 +2,19 @@
    initConfiguration (what NewPeerConnection stores) and ICEServer.validate /
    ICEServer.urls (iceserver.go), in the code's check/assign order.
    A Certificate is (dynamic type of the private key, identity of the private
-   key, identity of the x509 certificate) and Certificate.Equals
-   (certificate.go) is modelled on those three: the identity of a certificate
-   is its x509 certificate together with its key, NOT the key alone -- two
-   certificates issued for one key (GenerateCertificate(sk) twice, a renewal)
-   are different certificates.  stun.ParseURI is abstracted to the class of
+   key, identity of the x509 certificate, the instant Expires() returns) and
+   Certificate.Equals (certificate.go) is modelled on the first three: the
+   identity of a certificate is its x509 certificate together with its key,
+   NOT the key alone -- two certificates issued for one key
+   (GenerateCertificate(sk) twice, a renewal) are different certificates.
+   Equals never looks at the expiry: x509Cert.Equal compares the DER bytes
+   (Raw) only, while Expires() reads the NotAfter FIELD of the
+   *x509.Certificate the caller handed to CertificateFromX509 -- the two are
+   independent labels here, as they are in Go.
+   The clock is an input: initConfiguration reads time.Now() once (`now`);
+   SetConfiguration never reads it.  After the fix the certificate block of
+   SetConfiguration only compares: the stored certificate objects are never
+   replaced.  stun.ParseURI is abstracted to the class of
    each URL.  No proofs here. *)
 From Coq Require Import List Bool String NArith ZArith.
 Import ListNotations.
@@ -34,7 +42,24 @@ Record cert := {
   c_ktype : keytype;
   c_key : Z;                (* identity of the private key (RSA: N; ECDSA: X, Y) *)
   c_x509 : Z;               (* identity of the x509 certificate (its raw DER bytes) *)
+  c_expires : Z;            (* Certificate.Expires(): x509Cert.NotAfter as an instant in
+                               nanoseconds since 0001-01-01 00:00:00 UTC, so that
+                               0 is the zero time.Time (also what a nil x509Cert gives) *)
 }.
+
+(* peerconnection.go initConfiguration:
+     !x509Cert.Expires().IsZero() && now.After(x509Cert.Expires()) *)
+Definition cert_expired (now : Z) (c : cert) : bool :=
+  negb (Z.eqb (c_expires c) 0) && Z.ltb (c_expires c) now.
+
+(* "for _, x509Cert := range configuration.Certificates { if expired { return
+   InvalidAccessError{ErrCertificateExpired} }; append }": the first expired
+   certificate ends NewPeerConnection *)
+Fixpoint check_expiry (now : Z) (l : list cert) : bool :=
+  match l with
+  | [] => true
+  | c :: more => if cert_expired now c then false else check_expiry now more
+  end.
 
 (* Certificate.Equals: switch on the receiver's key type; the argument's key
    must have the same type and the same value; then x509Cert.Equal *)
@@ -101,17 +126,24 @@ Definition default_config : config :=
   {| servers := []; policy := 0; bundle := 1; rtcpmux := 2; identity := ""; certs := [];
      pool := 0; semantics := 0; always_dc := false |}.
 
-(* identity the harness gives the certificate pion generates when none is configured *)
-Definition generated_cert : cert := {| c_ktype := KEcdsa; c_key := 100; c_x509 := 100 |}.
+(* identity the harness gives the certificate pion generates when none is
+   configured; GenerateCertificate: NotAfter = time.Now().AddDate(0, 1, -1),
+   27 to 30 days ahead -- 27 days here (the harness does not compare the
+   expiry of this certificate, it only checks that it lies in the future) *)
+Definition generated_validity : Z := 27 * 86400 * 1000000000.
+Definition generated_cert (now : Z) : cert :=
+  {| c_ktype := KEcdsa; c_key := 100; c_x509 := 100; c_expires := now + generated_validity |}.
 
-(* initConfiguration (certificate expiry is not modelled: the harness uses valid ones) *)
-Definition init_configuration (c : config) : result config :=
+(* initConfiguration; now = the time.Now() it reads before the certificate loop.
+   The expiry check stands before the pool-size and ICE-server checks. *)
+Definition init_configuration (now : Z) (c : config) : result config :=
   let d := default_config in
   let ident := if String.eqb (identity c) "" then identity d else identity c in
-  let cs := match certs c with [] => [generated_cert] | l => l end in
+  let cs := match certs c with [] => [generated_cert now] | l => l end in
   let b := if Z.eqb (bundle c) 0 then bundle d else bundle c in
   let r := if Z.eqb (rtcpmux c) 0 then rtcpmux d else rtcpmux c in
-  if negb (N.eqb (pool c) 0) && N.ltb 1 (pool c) then Err E_notsupported
+  if negb (check_expiry now (certs c)) then Err E_access
+  else if negb (N.eqb (pool c) 0) && N.ltb 1 (pool c) then Err E_notsupported
   else
     let pl := if N.eqb (pool c) 0 then pool d else pool c in
     match servers c with
@@ -171,7 +203,7 @@ Definition sc_certs_by (eq : cert -> cert -> bool) (c new : config) : config * r
       if negb (Nat.eqb (List.length (certs new)) (List.length (certs c)))
       then (c, Err E_modification)
       else match certs_equal_by eq (certs c) (certs new) with
-           | Ok true => (with_certs c (certs new), Ok tt)
+           | Ok true => (c, Ok tt)      (* nothing assigned: the stored objects stay *)
            | Ok false => (c, Err E_modification)
            | Err e => (c, Err e)
            | Panic => (c, Panic)
@@ -271,3 +303,6 @@ Definition changes_immutable (has_local : bool) (cur new : config) : bool :=
   || changes_rtcpmux cur new || changes_pool has_local cur new.
 
 Definition servers_valid (l : list server) : bool := forallb server_valid l.
+
+(* what Certificate.Equals can see of a certificate *)
+Definition cert_id (c : cert) : keytype * Z * Z := (c_ktype c, c_key c, c_x509 c).
